@@ -61,12 +61,14 @@ func collect2[T any](seq iter.Seq2[T, error], render func(T) string, horizon int
 				again = "panic: " + p
 			}
 			if again != items[i].Rec {
-				items[i].Rec = fmt.Sprintf("RECORD CHANGED AFTER IT WAS YIELDED: item %d was %s when yielded and is %s after the iteration", i, items[i].Rec, again)
+				items[i].Rec = fmt.Sprintf(recordChanged+": item %d was %s when yielded and is %s after the iteration", i, items[i].Rec, again)
 			}
 		}
 	}
 	return
 }
+
+const recordChanged = "RECORD CHANGED AFTER IT WAS YIELDED"
 
 func renderObs(items []obsItem) string {
 	var sb strings.Builder
@@ -88,6 +90,15 @@ func renderObs(items []obsItem) string {
 func sameShape(a, b []obsItem) bool {
 	if len(a) != len(b) {
 		return false
+	}
+	// a record that changed after it was yielded equals nothing, not even the same defect seen
+	// through another delivery of the same input
+	for _, l := range [][]obsItem{a, b} {
+		for _, it := range l {
+			if strings.HasPrefix(it.Rec, recordChanged) {
+				return false
+			}
+		}
 	}
 	for i := range a {
 		if a[i].IsErr() != b[i].IsErr() {
